@@ -22,3 +22,12 @@ package network
 //@ opt frame off
 //@ call ::UncompressBlock requires[room] len(arg1) == source[0] + source[1]*256 + source[2]*65536 + source[3]*16777216 && len(arg1) <= payload.MaxSize && len(arg0) == len(source) - 4
 //@ import payload github.com/nspcc-dev/neo-go/pkg/network/payload
+
+// (C17) the Compressed flag written in front of a message says what THIS encoding's payload bytes
+// are: set exactly when this call compressed them - whatever an earlier encoding of the same message
+// object (for a peer with other capabilities, or the decoding it came from) left in the flag.
+//@ func (*Message).tryCompressPayload
+//@ may-panic
+//@ opt frame off
+//@ requires m != nil
+//@ ensures[flag] result == nil && m.Payload != nil ==> ((m.Flags & Compressed != 0) == (ncalls(compress) == 1))
